@@ -104,6 +104,14 @@ class BitEval:
             for st in n["b"]["stmts"]:
                 if st["k"] == "Let" and st["pat"]["k"] == "Binding" and "init" in st:
                     env[st["pat"]["lid"]] = self.ev(st["init"], env)
+                elif st["k"] == "Let" and st["pat"]["k"] == "Struct" and "init" in st:
+                    v = self.ev(st["init"], env)
+                    if not isinstance(v, dict):
+                        raise NotAffine("struct pattern on a non-struct value")
+                    for f in st["pat"]["fields"]:
+                        if f["p"].get("k") != "Binding" or f["f"] not in v:
+                            raise NotAffine("nested struct pattern")
+                        env[f["p"]["lid"]] = v[f["f"]]
                 else:
                     raise NotAffine("statement outside the pure fragment")
             if "expr" not in n["b"]:
@@ -115,6 +123,13 @@ class BitEval:
                     return env[n["lid"]]
                 raise NotAffine(f"unbound local {n['name']}")
             raise NotAffine(f"path {n.get('def')}")
+        if k == "Struct":
+            return {f["f"]: self.ev(f["e"], env) for f in n["fields"]}
+        if k == "Field":
+            v = self.ev(n["e"], env)
+            if isinstance(v, dict) and n["f"] in v:
+                return v[n["f"]]
+            raise NotAffine(f"field {n['f']} of a non-struct value")
         if k == "Lit":
             v = n["lit"].get("v")
             if n["lit"]["lk"] in ("int", "bool"):
@@ -218,6 +233,8 @@ class BitEval:
                 return Bits(a.bits[:w], s)
             fill = a.bits[-1] if a.signed else ZERO
             return Bits(a.bits + [fill] * (w - a.width), s)
+        if k == "Call" and n["f"].get("def") in ("core::result::Result::Ok", "core::option::Option::Some") and len(n["args"]) == 1:
+            return self.ev(n["args"][0], env)
         if k in ("MethodCall", "Call"):
             cal = core.callee(n) or ""
             args = core.call_args(n)
